@@ -119,7 +119,7 @@ func checkC14(c *Ctx) {
 			}
 			cases[cs] = swCase{b.Succs[0], ifi}
 		}
-		if len(cases) >= 5 && strings.Contains(c.P.File(fn.Pos()), "server") {
+		if len(cases) >= 5 && !clientSide(c, fn) {
 			if _, isReq := cases["tools/call"]; isReq {
 				swFn, swCases = fn, cases
 			}
@@ -282,8 +282,7 @@ func c14Wrappers(c *Ctx) {
 	respT := c.P.RootNamed("JSONRPCResponse")
 	n := 0
 	for _, fn := range c.P.LibFns {
-		file := c.P.File(fn.Pos())
-		if !strings.Contains(file, "server") {
+		if !serverSide(c, fn) {
 			continue
 		}
 		ir.EachInstr(fn, func(_ *ssa.BasicBlock, _ int, in ssa.Instruction) {
@@ -306,35 +305,46 @@ func c14Wrappers(c *Ctx) {
 			default:
 				return
 			}
-			// only results of request processing (a tuple result of a call, or a parameter)
+			// only results of request processing (a tuple result of a call, or a parameter fed with one); a literal
+			// result (ping etc.) has nothing to pass through
 			var holder *ssa.Function = fn
-			guardOK := false
-			switch w := wrapped.(type) {
-			case *ssa.Extract, *ssa.Phi:
-				guardOK = wrapGuarded(fn, at, wrapped)
-			case *ssa.Parameter:
-				// the test is made by the callers before handing the value over
-				idx := -1
-				for i, p := range fn.Params {
-					if p == w {
-						idx = i
+			var judge func(f *ssa.Function, at ssa.Instruction, v ssa.Value, d int) (applicable, ok bool)
+			judge = func(f *ssa.Function, at ssa.Instruction, v ssa.Value, d int) (bool, bool) {
+				switch w := v.(type) {
+				case *ssa.Extract, *ssa.Phi:
+					if wrapGuarded(f, at, v) {
+						return true, true
 					}
+					holder = f
+					return true, false
+				case *ssa.Parameter:
+					if d > 3 {
+						return false, true
+					}
+					idx := -1
+					for i, p := range f.Params {
+						if p == w {
+							idx = i
+						}
+					}
+					any := false
+					for _, e := range ir.Callers(c.G, f) {
+						if e.Site == nil || !c.P.IsLib(e.Caller.Func) || idx < 0 || idx >= len(e.Site.Common().Args) {
+							continue
+						}
+						ap, ok := judge(e.Caller.Func, e.Site, ir.Unwrap(e.Site.Common().Args[idx]), d+1)
+						if ap && !ok {
+							return true, false
+						}
+						any = any || ap
+					}
+					return any, true
 				}
-				all := false
-				for _, e := range ir.Callers(c.G, fn) {
-					if e.Site == nil || !c.P.IsLib(e.Caller.Func) || idx >= len(e.Site.Common().Args) {
-						continue
-					}
-					if !wrapGuarded(e.Caller.Func, e.Site, ir.Unwrap(e.Site.Common().Args[idx])) {
-						all = false
-						holder = e.Caller.Func
-						break
-					}
-					all = true
-				}
-				guardOK = all
-			default:
-				return // a literal result (ping etc.)
+				return false, true
+			}
+			applicable, guardOK := judge(fn, at, wrapped, 0)
+			if !applicable {
+				return
 			}
 			n++
 			c.R.Check(guardOK, "R-wrapper-shape", "result wrapped in "+fname(fn), c.Pos(at.Pos()),
@@ -423,6 +433,46 @@ func c14ClientDecoders(c *Ctx) {
 						guarded = true
 					}
 				}
+			}
+			if !guarded {
+				// the test may live in a helper that turns an error answer into a Go error: err := helper(raw); if err != nil { return }
+				ir.EachInstr(m, func(_ *ssa.BasicBlock, _ int, in ssa.Instruction) {
+					call, ok := in.(*ssa.Call)
+					if !ok {
+						return
+					}
+					sc := ir.StaticCallee(call)
+					if sc == nil || !c.P.IsLib(sc) || sc.Signature.Results().Len() != 1 || ir.TypeStr(sc.Signature.Results().At(0).Type()) != "error" {
+						return
+					}
+					takesRaw := false
+					for _, a := range call.Call.Args {
+						if ir.TypeStr(a.Type()) == "*encoding/json.RawMessage" {
+							takesRaw = true
+						}
+					}
+					tests := false
+					ir.EachCall(sc, func(ic ssa.CallInstruction) {
+						if isc := ir.StaticCallee(ic); isc != nil && isErrTest(isc) {
+							tests = true
+						}
+					})
+					if !takesRaw || !tests {
+						return
+					}
+					for _, g := range flow.Guards(m, dec.Block()) {
+						bin, ok := g.If.Cond.(*ssa.BinOp)
+						if !ok || (bin.X != ssa.Value(call) && bin.Y != ssa.Value(call)) {
+							continue
+						}
+						if !ir.IsNilConst(bin.X) && !ir.IsNilConst(bin.Y) {
+							continue
+						}
+						if (bin.Op == token.NEQ && !g.Branch) || (bin.Op == token.EQL && g.Branch) {
+							guarded = true
+						}
+					}
+				})
 			}
 			c.R.Check(guarded, "R-client-decoders", tn+"."+mname+": error test first", c.Pos(dec.Pos()), "the answer is decoded only on the not-an-error edge",
 				sprintf("%s.%s decodes the answer without first testing it for a JSON-RPC error", tn, mname))
